@@ -264,6 +264,8 @@ class Interp:
             return True
         if isinstance(v, (SEnum, Opaque, IFunc, BoundMethod, ModelMethod, Coro)):
             return True
+        if isinstance(v, self.models.STuple):
+            return self.truth(v.b)
         if isinstance(v, SStr):
             raise Unsupported("truth value of opaque string")
         if isinstance(v, SVal):
@@ -555,7 +557,7 @@ class Interp:
                 self.raise_py(TypeError, f"{cls.__name__}() takes no arguments")
             return o
         init = r[0]
-        if dataclasses.is_dataclass(cls) and getattr(init, "__qualname__", "").endswith("__create_fn__.<locals>.__init__"):
+        if dataclasses.is_dataclass(cls) and getattr(getattr(init, "__code__", None), "co_filename", "") == "<string>":
             self.dataclass_init(o, cls, args, kwargs)
             return o
         if isinstance(init, types.FunctionType) and self.is_interp_func(init):
@@ -1015,6 +1017,8 @@ class Interp:
         """Python-level iteration over a value, lazily (symbolic ranges decide per element)."""
         if isinstance(it, SBytes):
             n = it.length()
+            if not isinstance(n, int):
+                n = self.models.B.fix(self, it).length()
             if isinstance(n, int):
                 it2 = SBytes(it.segs).expand()
                 for i in range(n):
